@@ -8,6 +8,7 @@ pub mod comps;
 pub mod conv;
 pub mod driver;
 pub mod forge;
+pub mod fuzzdec;
 pub mod interp;
 pub mod model;
 pub mod ops;
